@@ -407,6 +407,17 @@ def rule_commit(P):
     return r
 
 
+def rule_epoll_use(ctx, config):
+    """how epoll_apply_one_change uses the operation table (C06's rule, reused): in particular EPOLLET is requested exactly when one of the three change bytes carries the ET bit - a
+    registration that loses edge-triggering when one of two ET events on a descriptor is deleted breaks this property (which events are delivered how)."""
+    from . import C06
+    rules = C06.run(ctx, config)
+    out = [r for r in rules if r.id == "C06-use"]
+    for r in out:
+        r.id = "C05-epoll-use"
+    return out
+
+
 def run(ctx, config):
     P = ctx.prog(UNITS, config)
-    return [rule_evmap(P), rule_changelist(P), rule_backends(P), rule_order(P), rule_commit(P)]
+    return [rule_evmap(P), rule_changelist(P), rule_backends(P), rule_order(P), rule_commit(P)] + rule_epoll_use(ctx, config)
